@@ -152,4 +152,11 @@ theorem digits_run (ds : Bytes) : ∀ (st : St) (f : Fast) (p : Pos) (rest : Byt
     rw [List.cons_append, runBytes_cons_ok {} hstep']
     exact hrun
 
+theorem fmtNatAux_eq (fuel : Nat) : ∀ (n : Nat) (acc : Bytes), Writer.fmtNatAux fuel n acc = Json.fmtNatAux fuel n acc := by
+  induction fuel with
+  | zero => intro n acc; rfl
+  | succ k ih => intro n acc; simp only [Writer.fmtNatAux, Json.fmtNatAux, ih]
+
+theorem fmtNat_eq (n : Nat) : Writer.fmtNat n = Json.fmtNat n := fmtNatAux_eq _ _ _
+
 end OjgVerif.Sen
